@@ -7,26 +7,26 @@ HERE = os.path.dirname(os.path.dirname(os.path.abspath(__file__)))
 
 NOTE = ('trusted base: the simulator (vsim/core.py scheduler, pipes, tape replay), the world '
         'generator, the unittest model (vsim/world.py predict_test, validated against every run by '
-        'C05) and the reference selection model; CPython 3.12.1 only; children are forked from a '
+        'C05) and the reference selection model; the simulator runs on CPython 3.12.1 (C05/C11 add directed real-process runs under 3.9/3.10/3.11/3.13); children are forked from a '
         'warmed interpreter rather than exec()ed; sampling, not enumeration')
 
 CHECKS = {
-    'C01': ('worldsim', '5.1', 'layer-stack automaton replayed over the pid-tagged hook trace of seeded simulated runs with injected layer setUp/tearDown/NotImplementedError faults'),
+    'C01': ('worldsim', '5.1', 'layer-stack automaton replayed over the pid-tagged hook trace of seeded simulated runs with injected layer setUp/tearDown/NotImplementedError faults; failed set-ups of multi-base layers; tests owed after a NotImplementedError tear-down also under -x'),
     'C02': ('worldsim', '5.2', 'verdict of run_internal vs. ground truth of injected faults (tests, layers, imports, child death, spawn failure, truncated report) under the simulated process layer, both modes; slow children, transient pipe read errors, undecodable child output, line-level pre-emption of the worker threads'),
     'C04': ('worldsim', '5.4', 'exception injection at every test/layer phase in simulated runs; containment oracle on trace and output'),
-    'C05': ('worldsim', '5.5', 'bracket automaton over testSetUp/testTearDown events of seeded simulated runs with injected outcome faults'),
-    'C03': ('worldsim', '5.3', 'executed multiset over all pids vs. reference selection model, for --list-tests / sequential / simulated -j N / resumed executions of one spec (exactly-once across processes), also with a failed spawn and with sys.argv changed by a test before layers are resumed'),
+    'C05': ('worldsim', '5.5', 'bracket automaton over testSetUp/testTearDown events of seeded simulated runs with injected outcome faults and a failing write to the runner\'s stdout at a seed-chosen point; directed specs re-run as real processes under CPython 3.9/3.10/3.11/3.13'),
+    'C03': ('worldsim', '5.3', 'executed multiset over all pids vs. reference selection model, for --list-tests / sequential / simulated -j N / resumed executions of one spec (exactly-once across processes), also with a failed spawn, with sys.argv changed by a test before layers are resumed, and with overlapping -s search directories'),
     'C06': ('procsim', '5.6', 'seeded and directed (all k! forced completion orders, barrier, stalls) schedules of the real resume_tests/spawn threads over tape-replaying child actors; block/ordering oracle, alive<=N invariant at every spawn, bounded-progress by structural hang detection; line-level pre-emption of the parent\'s threads, failed spawns, slow parent stdout'),
-    'C07': ('procsim', '5.7', 'channel fault injection on the simulated child processes (crash at every hook site incl. uncaught SystemExit/KeyboardInterrupt, truncation at every report offset, noise before/after the report, back-pressure, EINTR, spawn failures of several exception classes, a child that closes its pipes but lives on, a parent stdout that cannot encode or fails a write, helper threads that cannot be started, megabyte reports, line-level pre-emption); delivered-report oracle, deadlock detection by the scheduler'),
-    'C10': ('ordersim', '5.10', 'the nondeterminism sources the statement names (discovery order, layer-object creation order/addresses, --layer option order, PYTHONHASHSEED lanes) are permuted by the simulator around the real Runner(found_suites=...); order invariants on the simulated runs'),
-    'C11': ('worldsim', '5.11', 'simulated clocks with parent/child skew decide the default seed; order equality across list/sequential/-j N/resumed/--layer executions and reproduction from the reported seed; foreign draws from the global random generator injected between the lines of the shuffle'),
-    'C12': ('worldsim', '5.12', 'printed counts/lists vs. trace ground truth, and sequential vs. simulated -j N / resumed executions of the same spec; ^C in a half-run layer, undecodable child output'),
-    'C13': ('worldsim', '5.13', 'token attribution over the merged stdout/stderr log and stream identity monitored inside hooks, over seeded outcome histories incl. tests that replace, close, stash and re-install the streams and nested in-process runs'),
-    'C14': ('fssim', '5.14', 'find.os seam returns every directory in seeded enumeration orders over generated tmpfs trees; import-event history and listing order vs. reference discovery model'),
-    'C15': ('fssim', '5.15', 'find.os seam (enumeration order, unlink faults: concurrent removal / permission, a concurrent writer creating source files mid-scan) around the real --list-tests run on generated tmpfs trees; before/after disk snapshot vs. orphan model'),
-    'C16': ('worldsim', '5.16', '"nothing starts after the first bad outcome" automaton per pid over seeded simulated -x runs (sequential, resumed with late child reports, failing tear-downs)'),
+    'C07': ('procsim', '5.7', 'channel fault injection on the simulated child processes (crash at every hook site incl. uncaught SystemExit/KeyboardInterrupt, truncation at every report offset, noise before/after the report, back-pressure, EINTR, spawn failures of several exception classes, a child that closes its pipes but lives on, a parent stdout that cannot encode or fails a write, helper threads that cannot be started, a failing read of a child\'s stderr, megabyte reports, line-level pre-emption); delivered-report oracle, deadlock detection by the scheduler'),
+    'C10': ('ordersim', '5.10', 'the nondeterminism sources the statement names (discovery order, layer-object creation order/addresses, --layer option order, PYTHONHASHSEED lanes) are permuted by the simulator around the real Runner(found_suites=...); order invariants on the simulated runs; world specs with children that die silently and a worker thread that cannot be started'),
+    'C11': ('worldsim', '5.11', 'simulated clocks with parent/child skew decide the default seed; order equality across list/sequential/-j N/resumed/--layer executions and reproduction from the reported seed; foreign draws from the global random generator injected between the lines of the shuffle; directed specs re-run as real processes (sequential, --list-tests, -j 2) under CPython 3.9/3.10/3.11/3.13 and compared with the simulated 3.12 order'),
+    'C12': ('worldsim', '5.12', 'printed counts/lists vs. trace ground truth, and sequential vs. simulated -j N / resumed executions of the same spec; ^C in a half-run layer, undecodable child output, header-like noise on a child\'s real stderr'),
+    'C13': ('worldsim', '5.13', 'token attribution over the merged stdout/stderr log and stream identity monitored inside hooks, over seeded outcome histories incl. tests that replace, close, stash and re-install the streams, nested in-process runs, and output written by a thread that existed before the test'),
+    'C14': ('fssim', '5.14', 'find.os seam returns every directory in seeded enumeration orders over generated tmpfs trees; a directory that vanishes between the listing of its parent and the walk entering it; import-event history and listing order vs. reference discovery model'),
+    'C15': ('fssim', '5.15', 'find.os seam (enumeration order, unlink faults: concurrent removal / permission, a concurrent writer creating source files mid-scan; after a failed unlink a run that goes on must have removed every other orphan; -s narrowing discovery) around the real --list-tests run on generated tmpfs trees; before/after disk snapshot vs. orphan model'),
+    'C16': ('worldsim', '5.16', '"nothing starts after the first bad outcome" automaton per pid over seeded simulated -x runs (sequential, resumed with late child reports or a failing read of the child\'s stderr, failing tear-downs, --buffer)'),
     'C18': ('statesim', '5.18', 'interpreter-state snapshots around in-process runs whose test phase is ended by injected faults (exceptions escaping layer per-test hooks, KeyboardInterrupt, -x, -D/EndRun) under every subset of state-changing options; runs without a test phase, -j runs with failing children under line-level pre-emption, pre-existing trace function / gc state'),
-    'C19': ('threadsim', '5.19', 'real leaked threads with simulator-allocated (recycled) thread idents behind threadsupport seams and seeded release points; threads that end when the runner sleeps; leak-report oracle against the world\'s own thread table'),
+    'C19': ('threadsim', '5.19', 'real leaked threads with simulator-allocated (recycled) thread idents behind threadsupport seams and seeded release points; threads that end when the runner sleeps; histories of runs in one interpreter (an earlier run with ignore patterns); leak-report oracle against the world\'s own thread table'),
 }
 
 NA = [
